@@ -365,8 +365,11 @@ static void scenario_sem(int nprod, int ncons, int per, int delay)
 		usleep(200);
 	bool hung = done < nprod + ncons;
 	int got_at_timeout = got;
-	if (hung)
+	if (hung) {
+		printf("HANG-DIAG: Semaphore: %d posts were issued but only %d waits completed within 20 s (lost post)\n", nprod * per * ncons, got_at_timeout);
+		fflush(stdout);
 		sem.post(nprod * per * ncons + 8); // release stuck waiters so the threads can be joined
+	}
 	for (auto t : ts) {
 		t->join();
 		delete t;
@@ -486,6 +489,8 @@ static void scenario_cond(int nprod, int ncons, int per, int delay)
 	bool hung = done < nprod + ncons;
 	int got_at_timeout = got;
 	if (hung) {
+		printf("HANG-DIAG: Condition: %d items were signalled under the lock but only %d were consumed within 20 s (lost signal)\n", nprod * per * ncons, got_at_timeout);
+		fflush(stdout);
 		for (int k = 0; k < 200 && done < nprod + ncons; k++) {
 			mutex.lock();
 			avail += 1000000;
@@ -541,6 +546,10 @@ static void scenario_condflag(int nwait, int delay)
 		usleep(200);
 	bool hung = done < nwait;
 	int done_at_timeout = done;
+	if (hung) {
+		printf("HANG-DIAG: Condition: the flag was set and signalled once under the lock, but only %d of %d waiters got through within 20 s (lost signal)\n", done_at_timeout, nwait);
+		fflush(stdout);
+	}
 	for (int k = 0; k < 2000 && done < nwait; k++) { // release stuck waiters so the threads can be joined
 		mutex.lock();
 		cond.signal();
